@@ -117,11 +117,12 @@ PROPS = {
         explanation='Verify walk proved; the remaining obligations bounded. Open known findings are listed in known_findings.json.',
     ),
     'C14': dict(
-        v=[], k=[('tensor_vault', ['c14_permission_allows_total_order', 'c14_permission_level_roundtrip', 'c14_max_min_are_lattice_ops',
+        v=['C14_access'], k=[('tensor_vault', ['c14_permission_allows_total_order', 'c14_permission_level_roundtrip', 'c14_max_min_are_lattice_ops',
                                    'c14_attenuate_never_amplifies_and_monotone'])], b=['c14_vault'],
+        pairs={'C14_access': ['bounded:c14_vault']},
         level='other',
-        technique='Kani full-domain harnesses on the permission lattice and attenuation policy',
-        claim='permission order/lattice ops and hop attenuation monotonicity proved for all policies and hop counts (Kani, complete)',
+        technique='Verus: the access decision kernel AccessController::get_permission_level_verified (BFS over MEMBER edges with signature check, distance attenuation and capacity bottleneck) extracted and proved SOUND for every graph: a permission is returned only if an entity within the horizon reachable over MEMBER edges holds an allowed VAULT_ACCESS edge to the target of at least that level (membership alone never confers access); Permission::allows / from_level, max/min_permission and AttenuationPolicy::attenuate proved against the level order. Kani full-domain harnesses on the permission lattice and attenuation policy',
+        claim='decision soundness of get_permission_level_verified proved for every access graph, signer and policy (Verus; edge-type string tests and HMAC uninterpreted, BFS termination not proved); permission order/lattice ops and hop attenuation monotonicity proved for all policies and hop counts (Kani, complete)',
         explanation='Lattice kernels proved; access decisions bounded.',
     ),
     'C15': dict(
